@@ -145,7 +145,7 @@ func c01Units(tier string) []*Unit {
 					continue // > 50 000 schedules at one preemption; thorough explores it in 16 shards
 				}
 				if name == "fanout-fail" && conc == 0 {
-					shards = 8
+					shards = 16
 				}
 			}
 			sc := scen(fmt.Sprintf("%s/c%s", name, concName(conc)), pg, vlab.Options{Concurrency: conc}, "root")
